@@ -288,7 +288,7 @@ class Described(Stage):
 
     def gen(self, d, tier):
         from .. import histgen
-        profile = dict(reuse=0.4, server_reuse=0.3, weights=dict(delete=8, bind=12, message=30, server_event=10, deep=2, sync=3, enum=8, title=3,
+        profile = dict(reuse=0.4, server_reuse=0.3, weights=dict(repeat=4, delete=8, bind=12, message=30, server_event=10, deep=2, sync=3, enum=8, title=3,
                                                                retype=3, newer=14, nulls=8, arrays=6, kinds=8, freeform=6, midsession=6))
         specs = histgen.history(d, nconn=d.int(1, 2), nmsg=d.int(4, 30), profile=profile)
         return dict(dialect=d.choice(['new', 'new', 'old']), specs=specs)
